@@ -210,6 +210,29 @@ func confuseUniques(r *Rng, schema []any, data []any) {
 						e["kids"] = append(ks, map[string]any{"n": name, "vals": []any{v}})
 					}
 					e0, e1 := entries[0].(map[string]any), entries[1].(map[string]any)
+					if r.Chance(40) {
+						// two entries that agree on the first leaf of the set and both lack the last one: an entry without all
+						// the leaves of a unique set is not compared at all
+						drop := func(e map[string]any, name string) {
+							var keep []any
+							for _, lk := range carr(e, "kids") {
+								if cstr(lk.(map[string]any), "n") != name {
+									keep = append(keep, lk)
+								}
+							}
+							e["kids"] = keep
+						}
+						for i, pth := range u {
+							if i == len(u)-1 {
+								drop(e0, pth.(string))
+								drop(e1, pth.(string))
+							} else {
+								set(e0, pth.(string), "same")
+								set(e1, pth.(string), "same")
+							}
+						}
+						continue
+					}
 					for i, pth := range u {
 						a, b := "x", "x"
 						if i == 0 {
